@@ -185,6 +185,32 @@ COPULA_GRIDS = [
 ]
 
 
+# grids with an exact tie at a comparison of the anchored code (the cut-off 1 of ONEONE / TILDE against a state, a cell boundary,
+# the truncation and the central cell)
+TIE_GRIDS = [
+    {"kind": "fixed", "h": 0.5, "n": 5},  # states and truncation exactly at +-1
+    {"kind": "fixed", "h": 2.0, "n": 3},  # h / 2 = 1: the central cell is [-1, 1] exactly (max(-h/2, -1), min(h/2, 1))
+    {"kind": "fixed", "h": 0.4, "n": 7},  # the cell boundary between 0.8 and 1.2 falls on the cut-off 1 (to an ulp)
+    {"kind": "geometric-bounds", "h": 0.1, "bounds": [-1.0, 1.0], "n_side": 3},  # truncation = cut-off
+]
+SMALL_GRIDS = [{"kind": "fixed", "h": 0.1, "n": 3}, {"kind": "geometric-bounds", "h": 0.1, "bounds": [-0.7, 0.4], "n_side": 3}]
+DEEP = 4  # refinements of the deep-level cases (small grids)
+
+
+def _one_per_family(specs, ys=(0.5, 1.2)):
+    """one Levy and one exponential spec per family, CGMY for the given y (plain specs only)"""
+    seen, out = set(), []
+    for ms in specs:
+        y = ms["params"].get("y")
+        key = (ms["family"], bool(ms.get("exp")), y)
+        if (key in seen or ms.get("triplet_sigma") is not None or ms.get("via") or (ms["family"] == "cgmy" and y not in ys)
+                or (ms["family"] == "cgmy" and ms["params"]["g"] == ms["params"]["m"])):
+            continue
+        seen.add(key)
+        out.append(ms)
+    return out
+
+
 def cases(tier):
     _warm()
     thorough = tier == "thorough"
@@ -198,6 +224,7 @@ def cases(tier):
         for exp in (False, True):
             ms = {"family": "cgmy", "exp": exp, "params": {"c": 1.0, "g": 15.0, "m": 20.0, "y": y}, "triplet_sigma": 0.2}
             specs.append(dict(ms, r=0.02, d=0.0, spot=100.0) if exp else ms)
+    plain = list(specs)
     # the construction route of the calibration helpers ("reinit" twin of mc.alphabets.with_reinit: parameter object built with
     # other values - a finite-variation CGMY donor for the infinite-variation targets -, attributes re-assigned,
     # initialisation(), model constructor): thorough every spec, quick one Levy and one exponential twin per family and the two
@@ -205,16 +232,7 @@ def cases(tier):
     if thorough:
         specs = A.with_reinit(specs)
     else:
-        seen = set()
-        twins = []
-        for ms in specs:
-            y = ms["params"].get("y")
-            key = (ms["family"], bool(ms.get("exp")), y)
-            if key in seen or ms.get("triplet_sigma") is not None or (ms["family"] == "cgmy" and y not in (0.5, 1.2)):
-                continue
-            seen.add(key)
-            twins.append(dict(ms, via="reinit"))
-        specs = specs + twins
+        specs = specs + [dict(ms, via="reinit") for ms in _one_per_family(plain)]
     grids = A.grid_specs(tier, dimension=1)
     # simplest first: as constructed on un-refined grids
     for k in ks:
@@ -229,11 +247,63 @@ def cases(tier):
                         continue  # quick: the second refinement only on the small grids
                     out.append({"sub": "chain1d", "model": ms, "rep": rep, "grid": dict(g, refine=k), "methods": methods,
                                 "history": True, "next_level": k <= 1})
+    # ---- exact ties: every plain spec (the CGMY exponents 1 and 0 - Blumenthal-Getoor index exactly 1 and exactly 0 - and the
+    # sigma = 0 parameter sets are among them) on the grids with a tie at the cut-off 1; history on the as-constructed cases
+    for k in ((0, 1) if thorough else (0,)):
+        for rep in REPS:
+            for ms in plain:
+                if rep == "ZERO" and not _spec_fv(ms):
+                    continue
+                for g in TIE_GRIDS:
+                    out.append({"sub": "chain1d", "model": ms, "rep": rep, "grid": dict(g, refine=k), "methods": methods,
+                                "history": rep is None, "next_level": rep is None and k == 0})
+    # ---- two successive conversions R1 > R2 of the declared representation before the chain is built (every ordered pair: the
+    # conversion FROM each representation, TILDE included); no history (the chain itself is as in the one-hop cases)
+    two_hop = [f"{r1}>{r2}" for r1 in REPS[1:] for r2 in REPS[1:] if r1 != r2]
+    for rep in two_hop:
+        for ms in plain:
+            if "ZERO" in rep and not _spec_fv(ms):
+                continue
+            for g in (SMALL_GRIDS + TIE_GRIDS[:1] if thorough else SMALL_GRIDS[1:]):
+                out.append({"sub": "chain1d", "model": ms, "rep": rep, "grid": dict(g, refine=0), "methods": methods[:1],
+                            "history": False, "next_level": False})
+    # ---- the same parameter values in another legal FORM of the constructor arguments ("int": Python ints where the value is
+    # integral - y = 1, y = 0, sigma = 0, spot = 100 ... -, numpy float64 elsewhere; "0d": 0-d numpy arrays), and the model
+    # reached through a COPY (copy.deepcopy / dill round trip, after which the original is re-declared, truncated and given
+    # another sigma; copy.copy, which shares the triplet by construction: the original is left alone)
+    tie_specs = [ms for ms in plain if ms["family"] == "cgmy" and ms["params"]["y"] in (0.0, 1.0) and ms.get("triplet_sigma") is None]
+    base = plain if thorough else _one_per_family(plain) + tie_specs
+    variants = [dict(ms, form=f) for f in ("int", "0d") for ms in base if thorough or f == "int" or ms in tie_specs]
+    variants += [dict(ms, copied=c) for c in ("deepcopy", "dill", "copy") for ms in (plain if thorough else _one_per_family(plain))
+                 if thorough or c != "copy" or ms["family"] in ("cgmy", "hem")]
+    for rep in REPS:
+        for ms in variants:
+            if rep == "ZERO" and not _spec_fv(ms):
+                continue
+            for g in (SMALL_GRIDS + [{"kind": "uniform", "h": 0.2, "p": 0.9}] if ms.get("form") else SMALL_GRIDS):
+                out.append({"sub": "chain1d", "model": ms, "rep": rep, "grid": dict(g, refine=0), "methods": methods[:1],
+                            "history": rep is None and bool(ms.get("copied")), "next_level": False})
+    # ---- deep levels: DEEP refinements of the small grids, and (next_level = n) n successive levels through the coupling, the
+    # way the multilevel engine reaches them (deepcopy of the coupling, next_level with path managers)
+    for rep in (REPS if thorough else [None, "CENTER"]):
+        for ms in (plain if thorough or rep is None else _one_per_family(plain)):
+            if rep == "ZERO" and not _spec_fv(ms):
+                continue
+            for g in SMALL_GRIDS:
+                out.append({"sub": "chain1d", "model": ms, "rep": rep, "grid": dict(g, refine=DEEP), "methods": methods[:1],
+                            "history": False, "next_level": False})
+                if rep is None:
+                    out.append({"sub": "chain1d", "model": ms, "rep": rep, "grid": dict(g, refine=0), "methods": methods[:1],
+                                "history": False, "next_level": 4 if thorough else 3})
     # copula chains, d = 2 (both orders of a finite- and an infinite-variation margin) and d = 3 (drift only)
     pairs = [("hem", "vg"), ("cgmy05", "cgmy12"), ("cgmy12", "vg"), ("cgmy12", "hem")]
     cops = [{"kind": "clayton", "theta": 0.7, "eta": 0.3}, {"kind": "independent"}]
+    # exact ties: a margin with Blumenthal-Getoor index exactly 1 (CGMY y = 1: infinite variation by its own measure) and
+    # exactly 0 (y = 0), next to a finite-variation margin, in both orders
+    tie_pairs = [("cgmy10", "vg"), ("hem", "cgmy10"), ("cgmy00", "cgmy12")]
     if thorough:
         pairs += [("hem", "hem2"), ("vg", "cgmy12"), ("merton", "cgmy05"), ("cgmy12", "cgmy12"), ("cgmy12", "hem2")]
+        tie_pairs += [("cgmy10", "cgmy12"), ("cgmy10", "cgmy00"), ("cgmy00", "hem2")]
         cops = A.copula_specs(tier)
     for k in (0, 1):
         for rep in REPS + ["MIXED"]:
@@ -247,6 +317,26 @@ def cases(tier):
                             nl = k == 0 and g["kind"] in ("fixed", "geometric-bounds", "credit") and (thorough or cop["kind"] == "clayton")
                             out.append({"sub": "copula", "model": {"margins": list(pair), "copula": cop, "exp": exp}, "rep": rep,
                                         "grid": dict(g, refine=k), "diffusion": False, "history": True, "next_level": nl})
+    # the ties (un-refined small grids), and the copula model reached through a copy (deepcopy / dill; the original disturbed)
+    for rep in REPS + ["MIXED"]:
+        for exp in (False, True):
+            for pair in tie_pairs:
+                for g in (COPULA_GRIDS if thorough else COPULA_GRIDS[:3:2] + COPULA_GRIDS[5:]):
+                    out.append({"sub": "copula", "model": {"margins": list(pair), "copula": cops[0], "exp": exp}, "rep": rep,
+                                "grid": dict(g, refine=0), "diffusion": False, "history": rep in (None, "MIXED"),
+                                "next_level": rep is None and g["kind"] == "fixed"})
+            for route in ("deepcopy", "dill"):
+                for pair in (pairs if thorough else pairs[1:3]):
+                    for g in COPULA_GRIDS[:3:2]:
+                        out.append({"sub": "copula", "model": {"margins": list(pair), "copula": cops[0], "exp": exp, "copied": route},
+                                    "rep": rep, "grid": dict(g, refine=0), "diffusion": False, "history": rep is None,
+                                    "next_level": False})
+    # dimension 4 (the generic n-d mass; finite- and infinite-variation margins), smallest grid
+    for rep in ([None, "CENTER", "MIXED"] if thorough else [None, "MIXED"]):
+        for exp in ((False, True) if thorough else (False,)):
+            out.append({"sub": "copula", "model": {"margins": ["hem", "cgmy12", "vg", "cgmy05"], "copula": cops[0], "exp": exp},
+                        "rep": rep, "grid": {"kind": "fixed", "h": 0.1, "n": 3, "refine": 0}, "diffusion": False,
+                        "history": rep is None and not exp})
     triples = [("hem", "cgmy12", "vg"), ("cgmy12", "hem", "vg")] + ([("hem", "vg", "cgmy12"), ("hem", "vg", "cgmy05")] if thorough else [])
     grids3 = [{"kind": "fixed", "h": 0.1, "n": 3}, {"kind": "geometric-bounds", "h": 0.1, "bounds": [-0.7, 0.4], "n_side": 3},
               {"kind": "credit", "h": 0.1, "a_frac": [0.4, 0.5, 0.6], "symmetric": False}]
@@ -288,25 +378,115 @@ def _mclass(spec):
         s += f":sigma={spec['triplet_sigma']:g}"
     if spec.get("via") == "reinit":
         s += ":reinit"
+    if spec.get("form"):
+        s += f":form={spec['form']}"
+    if spec.get("copied"):
+        s += f":copied={spec['copied']}"
     return ("exp-" if spec.get("exp") else "") + s
 
 
+def _as_form(v, form):
+    """the value v in another legal form of a constructor argument"""
+    if form == "0d":
+        return np.array(float(v))
+    if form == "int":
+        return int(v) if float(v).is_integer() else np.float64(v)
+    raise ValueError(form)
+
+
+def _copy_route(obj, route):
+    import copy
+
+    if route == "deepcopy":
+        return copy.deepcopy(obj)
+    if route == "copy":
+        return copy.copy(obj)
+    if route == "dill":
+        import dill
+
+        return dill.loads(dill.dumps(obj))
+    raise ValueError(route)
+
+
+def _disturb_model(model, truncations=(-0.05, 0.05)):
+    """what a caller may do to ITS model object afterwards: declare another representation, write another drift and Brownian
+    coefficient into the triplet, truncate the measure (and move the rate of an exponential model).  Whoever took a copy of
+    the model before must not notice."""
+    from rpylib.model.levymodel.levymodel import LevyRepresentation
+
+    tr = model.levy_triplet
+    other = "ONEONE" if tr.representation.name == "CENTER" else "CENTER"
+    tr.set_representation(LevyRepresentation[other])
+    tr.a = _real(tr.a) + 1.0
+    tr.sigma = _real(tr.sigma) + 0.25
+    model.truncate_levy_measure(truncations=truncations)
+    if hasattr(model, "r") and hasattr(model, "d"):
+        model.r = model.r + 0.01
+
+
 def _make_model(spec):
-    """mc.alphabets.make_model, plus an optional Brownian coefficient written into the triplet after construction
-    (`model.levy_triplet.sigma = s`: the only way to get sigma > 0 together with infinite-variation jumps - no built-in
-    model has both).  For the exponential classes the triplet is shared with the inner Levy model, and omega (hence
-    model.drift()) was fixed at construction without the -sigma^2/2 of the new coefficient: the discounted spot is then no
-    martingale, which this property does not speak about - the mean oracle takes model.drift() as it is, and sigma does not
-    enter the mean of the simulated (log) process; the variance clauses read sigma from the triplet, as the chain does."""
-    model = A.make_model({k: v for k, v in spec.items() if k != "triplet_sigma"})
+    """mc.alphabets.make_model, plus
+    * "form": the constructor arguments in another legal form (_as_form);
+    * "triplet_sigma": a Brownian coefficient written into the triplet after construction (`model.levy_triplet.sigma = s`: the
+      only way to get sigma > 0 together with infinite-variation jumps - no built-in model has both).  For the exponential
+      classes the triplet is shared with the inner Levy model, and omega (hence model.drift()) was fixed at construction
+      without the -sigma^2/2 of the new coefficient: the discounted spot is then no martingale, which this property does not
+      speak about - the mean oracle takes model.drift() as it is, and sigma does not enter the mean of the simulated (log)
+      process; the variance clauses read sigma from the triplet, as the chain does;
+    * "copied": the model handed on is a copy (copy.deepcopy / dill round trip / copy.copy) of the one constructed; after a deep
+      or dill copy the ORIGINAL is disturbed (_disturb_model): the copy must be independent of it."""
+    extra = ("triplet_sigma", "form", "copied")
+    plain = {k: v for k, v in spec.items() if k not in extra}
+    form = spec.get("form")
+    if form:
+        plain["params"] = {k: _as_form(v, form) for k, v in spec["params"].items()}
+        for k in ("r", "d", "spot"):
+            if k in plain:
+                plain[k] = _as_form(plain[k], form)
+    model = A.make_model(plain)
     if spec.get("triplet_sigma") is not None:
         model.levy_triplet.sigma = float(spec["triplet_sigma"])
+    route = spec.get("copied")
+    if route:
+        original = model
+        model = _copy_route(original, route)
+        if route != "copy":
+            _disturb_model(original)
     return model
 
 
 def _label(spec):
     s = A.model_label(spec)
-    return s + (f"[triplet sigma={spec['triplet_sigma']:g}]" if spec.get("triplet_sigma") is not None else "")
+    s += f"[triplet sigma={spec['triplet_sigma']:g}]" if spec.get("triplet_sigma") is not None else ""
+    s += f"[arguments as {spec['form']}]" if spec.get("form") else ""
+    s += f"[{spec['copied']} of the model, original disturbed afterwards]" if spec.get("copied") else ""
+    return s
+
+
+# the margins of mc.alphabets plus the CGMY ties: Blumenthal-Getoor index exactly 1 and exactly 0
+MARGINS = dict(A.MARGINS,
+               cgmy10={"family": "cgmy", "exp": False, "params": {"c": 1.0, "g": 15.0, "m": 20.0, "y": 1.0}},
+               cgmy00={"family": "cgmy", "exp": False, "params": {"c": 1.0, "g": 15.0, "m": 20.0, "y": 0.0}})
+
+
+def _make_copula_model(spec):
+    """mc.alphabets.make_copula_model over the local MARGINS; "copied": the model handed on is a deep / dill copy, the original
+    (every margin) is disturbed afterwards"""
+    from rpylib.model.utils import create_levy_copula_model
+
+    models = []
+    for name in spec["margins"]:
+        ms = dict(MARGINS[name])
+        if spec.get("exp"):
+            ms = dict(ms, exp=True, r=0.02, d=0.0, spot=100.0)
+        models.append(A.make_model(ms))
+    model = create_levy_copula_model(models=models, copula=A.make_copula(spec["copula"]))
+    if spec.get("copied"):
+        original = model
+        model = _copy_route(original, spec["copied"])
+        for mk in original.models:
+            _disturb_model(mk)
+    return model
 
 
 def _cop_label(c):
@@ -476,13 +656,27 @@ HISTORY = [
     ("init-again", "vanilla-1", None, None),
     ("init-other-product", "asian-2", None, None),
     ("init-stochastic-dates", "cds-1", None, None),
+    # a copy used as it is (what Engine.price does with copy.deepcopy, what a pool worker does with the dill copy it receives)
+    ("deepcopy-then-simulate", None, None, "deepcopy"),
+    ("dill-then-simulate", None, None, "dill"),
     ("init-max-step", "vanilla-1", 0.3, None),
     ("init-max-step-beyond-maturity", "vanilla-1", 2.0, None),
     ("init-stochastic-dates-max-step", "cds-1", 0.3, None),
     ("reset-cost-then-init", "vanilla-1", None, "reset-cost"),
     ("other-object-then-init", "vanilla-1", None, "other-object"),
     ("deepcopy-then-init", "vanilla-1", None, "deepcopy"),
+    ("dill-then-init", "vanilla-1", None, "dill"),  # what a pool worker receives
+    # other legal forms of max_step_epsilon: a Python int equal to the maturity (tie), a numpy scalar passed positionally
+    ("init-max-step-int-epsilon-at-maturity", "vanilla-1", 1, None),
+    ("init-max-step-numpy-epsilon-positional", "cds-1", ("positional", 0.3), None),
 ]
+
+
+def _initialise(target, product, eps):
+    if isinstance(eps, tuple):
+        target.initialisation(product, np.float64(eps[1]))
+    else:
+        target.initialisation(product, max_step_epsilon=eps)
 
 
 def _mode(prod_key, eps):
@@ -496,7 +690,7 @@ def _well_formed(axis, origin):
             and all(x < y for x, y in zip(axis, axis[1:])) and axis[origin] == 0.0)
 
 
-def _set_rep(sh, triplet, rep, key_tail, label):
+def _set_rep(sh, triplet, rep, key_tail, label, with_copies=False):
     """set_representation(rep) on the caller's triplet and check the declared drift against the conversion integral.
     Returns False when the combination is outside the alphabet or the conversion failed (already reported)."""
     from rpylib.model.levymodel.levymodel import LevyRepresentation
@@ -508,6 +702,12 @@ def _set_rep(sh, triplet, rep, key_tail, label):
     if rep == "ZERO" and not fv:
         sh.count("outside-alphabet:zero-needs-finite-variation")
         return False
+    copies = []
+    if with_copies:
+        try:
+            copies = [(route, _copy_route(triplet, route)) for route in ("deepcopy", "dill")]
+        except Exception as e:  # noqa
+            sh.violation(f"C04:copies:LevyTriplet:copy-raises-{type(e).__name__}:{key_tail}", f"{label}: {e!r}", None)
     try:
         with warnings.catch_warnings():
             warnings.simplefilter("ignore")
@@ -517,6 +717,28 @@ def _set_rep(sh, triplet, rep, key_tail, label):
                      f"{label}: set_representation({rep}) from {r0}: {e!r}", None)
         return False
     a1, r1 = _real(triplet.a), triplet.representation.name
+    # a deep / dill copy of the triplet taken BEFORE the conversion still is what the original was, and converts to the same
+    # drift (the same computation on equal inputs: exact)
+    for route, t in copies:
+        sh.count("evaluations")
+        try:
+            was = (repr(_real(t.a)), t.representation.name)
+            with warnings.catch_warnings():
+                warnings.simplefilter("ignore")
+                t.set_representation(LevyRepresentation[rep])
+            now = (repr(_real(t.a)), t.representation.name)
+        except Exception as e:  # noqa
+            sh.violation(f"C04:copies:LevyTriplet.set_representation:raises-{type(e).__name__}:{route}:{key_tail}:{r0}-to-{rep}",
+                         f"{label}: {route} copy of the triplet: {e!r}", None)
+            continue
+        if was != (repr(a0), r0):
+            sh.violation(f"C04:copies:LevyTriplet:copy-follows-the-original:{route}:{key_tail}:{r0}-to-{rep}",
+                         f"{label}: the {route} copy taken before set_representation({rep}) of the original was ({a0!r}, {r0}), is "
+                         f"{was} afterwards", None)
+        elif now != (repr(a1), r1):
+            sh.violation(f"C04:copies:LevyTriplet.set_representation:copy-converts-differently:{route}:{key_tail}:{r0}-to-{rep}",
+                         f"{label}: set_representation({rep}) gives ({a1!r}, {r1}) on the original and {now} on its {route} copy",
+                         None)
     if r1 != rep:
         sh.violation(f"C04:conversion:LevyTriplet.set_representation:representation-not-updated:{key_tail}:{r0}-to-{rep}",
                      f"{label}: representation is {r1} after set_representation({rep})", None)
@@ -579,11 +801,16 @@ def _chain1d(sh, case):
     if bool(model.levy_triplet.nu.jump_of_finite_variation()) != _spec_fv(spec):
         sh.count("outside-alphabet:finite-variation-flag-differs-from-spec")
         return
-    if not _set_rep(sh, model.levy_triplet, rep_req, mc, label):
-        return
+    hops = rep_req.split(">") if rep_req else [None]
+    for hop in hops:
+        if not _set_rep(sh, model.levy_triplet, hop, mc, label, with_copies=True):
+            return
     a, sigma, nu, rep, fv = _triplet(model)
     drift = _real(model.drift())
-    sh.cls("declared:" + rep + (":converted" if rep_req else ":as-constructed"))
+    sh.cls("declared:" + rep + ((":converted-twice" if len(hops) > 1 else ":converted") if rep_req else ":as-constructed"))
+    for what in ("form", "copied"):
+        if spec.get(what):
+            sh.cls(f"model-{what}:{spec[what]}")
     sh.cls("finite-variation" if fv else "infinite-variation")
     sh.cls("process-representation:" + ("log" if spec.get("exp") else "identity"))
     sh.cls("model:" + mc)
@@ -599,8 +826,9 @@ def _chain1d(sh, case):
         sh.count("outside-alphabet:grid-not-well-formed")
         return
     lo, hi = axis[0], axis[-1]
+    h_before = repr(grid.h)
     rtol = 1e-9 if fv else 1e-8
-    tail = f"{mc}:{rep}:{gc}"
+    tail = f"{mc}:{rep}{'-via-' + hops[0] if len(hops) > 1 else ''}:{gc}"
     product = _product()
     fp_points = [1.5 * lo, 0.25 * axis[o - 1], 0.25 * axis[o + 1], 1.5 * hi]
     fp0 = _fingerprint(model, fp_points)
@@ -637,6 +865,7 @@ def _chain1d(sh, case):
             rates_m[k] = max(_real(first.model.mass(cell[0], cell[1])), 0.0)
     sum_abs = sum(abs(axis[k]) * r for k, r in rates_m.items())
     lam = _real(first.intensity_of_jumps)
+    _public_functions_1d(sh, label, tail, vtail_of(mc, fv, gc), first, grid, axis, o, rates_m, sum_abs, sig_eq)
 
     # ---- mean
     sampler_rates = {}
@@ -661,6 +890,11 @@ def _chain1d(sh, case):
                 {"process_drift": pd, "chain_mean": got, "expected": want, "a": a, "model_drift": drift, "jump_mean": jump_mean,
                  "truncation": [lo, hi], "declared": rep, "quad_err": err})
         for meth, p in procs.items():
+            if not lam > 0.0:
+                # no mass outside the central cell in double precision (Merton on the h = 2 grid): the chain never jumps, its
+                # sampler has no state to hand out (C02's subject); the identities above and below hold with an empty sum
+                sh.count("outside-alphabet:sampler-of-a-chain-of-zero-intensity")
+                continue
             try:
                 rates_s, npieces, evals = _sampler_rates(p, grid, meth, len(rates_m))
             except Exception as e:  # noqa
@@ -747,10 +981,25 @@ def _chain1d(sh, case):
     # ---- histories on the re-used process object, the simulators' Brownian scale, the coupling's route to the next level
     if case.get("history", True):
         var_want = sigma ** 2 if fv else (sigma ** 2 + q_c if e_c <= 1e-8 * abs(q_c) + 1e-300 else None)
-        _history_1d(sh, label, tail, vtail, model, first, bool(spec.get("exp")), fv, pd, sig_eq, scale, var_want, fp0, fp_points)
+        _history_1d(sh, label, tail, vtail, model, first, bool(spec.get("exp")), fv, pd, sig_eq, scale, var_want, fp0, fp_points,
+                    never_jumps=not lam > 0.0)
+    # ---- the caller's grid is as it was (the chains keep a reference to it by design, none may write into it)
+    now = ([float(x) for x in grid.axes[0]], int(getattr(grid.origin_coordinate, "value", grid.origin_coordinate)), repr(grid.h))
+    if now != (axis, o, h_before):
+        sh.violation(f"C04:arguments:MarkovChainProcess:modifies-the-callers-grid:{tail}",
+                     f"{label}: axis / origin / h were {(axis, o, h_before)}, are {now} after the chains and their histories", None)
+    # ---- the caller disturbs ITS model object; the chain built from it before (own deep copy) answers as before
+    _alias_1d(sh, label, tail, vtail, model, first, pd, sig_eq, scale, (0.5 * lo, 0.5 * hi))
     if case.get("next_level"):
+        # (an equal model reached the same way: the caller's was disturbed just now; the grid OBJECT is the one used above)
+        from rpylib.model.levymodel.levymodel import LevyRepresentation
+
+        model = _make_model(spec)
+        for hop in hops:
+            if hop:
+                model.levy_triplet.set_representation(LevyRepresentation[hop])
         _next_level_1d(sh, label, tail, vtail, model, grid, case["methods"][-1], a, sigma, nu, rep, fv, drift, jump_mean, err, lo, hi,
-                       sig_eq)
+                       sig_eq, int(case["next_level"]))
 
     sh.outcome((round(pd, 9) if math.isfinite(pd) else repr(pd), round(want, 9), round(sig_eq, 9) if math.isfinite(sig_eq) else "nan"))
     if gspec["kind"] == "fixed" and gspec.get("n") == 5:
@@ -758,6 +1007,70 @@ def _chain1d(sh, case):
                    "points": len(axis), "process_drift": pd, "sum_x_rate": sum(axis[k] * r for k, r in rates_m.items()),
                    "expected_mean": want, "a": a, "model_drift": drift, "int_T_x(1-c)nu": jump_mean,
                    "sigma_eq^2-sigma^2": added, "int_central_x^2_nu": q_c})
+
+
+def vtail_of(mc, fv, gc):
+    return f"{mc}:{'finite' if fv else 'infinite'}-variation:{gc}"
+
+
+def _public_functions_1d(sh, label, tail, vtail, proc, grid, axis, o, rates_m, sum_abs, sig_eq):
+    """compute_mu_h and vol_adjustment called directly, with every legal form of their arguments (the axis as the grid's own
+    array / list / tuple / fresh float array, the origin as int / numpy integer / 0-d array; h as float / numpy scalar / 0-d
+    array / int when integral): the same answer for every form, the caller's arrays left as they were, and
+    mu_h = sum_k x_k mass(cell_k) on the reference cells, sigma^2 + vol_adjustment^2 = equivalent_diffusion_coefficient^2."""
+    from rpylib.process.markovchain.markovchain import compute_mu_h, vol_adjustment
+
+    nu_t = proc.model.levy_triplet.nu
+    own = grid.axes[0]
+    arr = np.array(axis, dtype=float)
+    lst = list(axis)
+    forms = [("own-array", own, grid.origin_coordinate.value), ("list", lst, int(o)), ("tuple", tuple(axis), np.int64(o)),
+             ("fresh-array", arr, np.array(o))]
+    vals = {}
+    for name, ax, org in forms:
+        try:
+            with warnings.catch_warnings():
+                warnings.simplefilter("ignore")
+                vals[name] = _real(compute_mu_h(levy_measure=nu_t, grid=grid, axis=ax, origin=org))
+        except Exception as e:  # noqa
+            sh.violation(f"C04:forms:compute_mu_h:raises-{type(e).__name__}:axis-as-{name}:{tail}", f"{label}: {e!r}", None)
+    if [float(x) for x in own] != axis or lst != axis or [float(x) for x in arr] != axis:
+        sh.violation(f"C04:arguments:compute_mu_h:modifies-the-callers-axis:{tail}",
+                     f"{label}: axis was {axis}, the arrays handed to compute_mu_h are {[float(x) for x in own]} / {lst} / "
+                     f"{[float(x) for x in arr]} afterwards", None)
+    ref = vals.get("own-array")
+    if ref is not None:
+        sh.count("evaluations", len(vals))
+        want = sum(axis[k] * r for k, r in rates_m.items())
+        if not core.close(ref, want, rtol=1e-12, atol=1e-300, scale=max(sum_abs, 1e-300)):
+            sh.violation(f"C04:mean:compute_mu_h:differs-from-the-states-weighted-by-the-cell-masses:{tail}",
+                         f"{label}: compute_mu_h = {ref!r}, sum x_k mass(cell_k) over the reference cells = {want!r}", None)
+        for name, v in vals.items():
+            if not core.close(v, ref, rtol=4 * EPS, atol=1e-300, scale=max(sum_abs, 1e-300)):
+                sh.violation(f"C04:forms:compute_mu_h:answer-depends-on-the-form-of-the-axis:{name}:{tail}",
+                             f"{label}: {ref!r} with the grid's own axis, {v!r} with the axis as {name}", None)
+    h = grid.h
+    hf = float(h)
+    hforms = [("as-given", h), ("float", hf), ("numpy-scalar", np.float64(hf)), ("0d-array", np.array(hf))]
+    if hf.is_integer():
+        hforms.append(("int", int(hf)))
+    vols = {}
+    for name, hh in hforms:
+        try:
+            vols[name] = _real(vol_adjustment(proc.model, hh))
+        except Exception as e:  # noqa
+            sh.violation(f"C04:forms:vol_adjustment:raises-{type(e).__name__}:h-as-{name}:{vtail}", f"{label}: {e!r}", None)
+    ref = vols.get("as-given")
+    if ref is not None:
+        sh.count("evaluations", len(vols))
+        sig_t = _real(proc.model.levy_triplet.sigma)
+        if not core.close(sig_t ** 2 + ref ** 2, sig_eq ** 2, rtol=1e-12, atol=1e-300):
+            sh.violation(f"C04:variance:vol_adjustment:sigma2-plus-its-square-is-not-the-equivalent-coefficient-squared:{vtail}",
+                         f"{label}: sigma = {sig_t!r}, vol_adjustment = {ref!r}, equivalent_diffusion_coefficient = {sig_eq!r}", None)
+        for name, v in vols.items():
+            if not core.close(v, ref, rtol=4 * EPS, atol=1e-300):
+                sh.violation(f"C04:forms:vol_adjustment:answer-depends-on-the-form-of-h:{name}:{vtail}",
+                             f"{label}: {ref!r} with h = {h!r}, {v!r} with h as {name}", None)
 
 
 # ----------------------------------------------------------------------------------------------------------------------
@@ -779,13 +1092,39 @@ def _fingerprint(model, points):
 
 
 def _slope(proc, dim):
-    """slope of deterministic_path (the deterministic part every simulated path is added to) over [0, 1] and [0, 2], and the
-    absolute accuracy of the subtraction"""
-    dp = np.asarray(proc.deterministic_path(np.array([0.0, 1.0, 2.0])), dtype=float).reshape(dim, 3)
+    """slope of deterministic_path (the deterministic part every simulated path is added to) over [0, 1] and [0, 2], the
+    absolute accuracy of the subtraction, and the names of the legal forms of the argument (integer-dtype array, (1, n) array,
+    Python / numpy scalars, 0-d array; lists and tuples are rejected by the library) whose answer is not that of the float
+    array - or "modifies-the-callers-array" """
+    t = np.array([0.0, 1.0, 2.0])
+    raw = proc.deterministic_path(t)
+    dp = np.array(raw, dtype=float).reshape(dim, 3)  # a copy: raw is written into below
     s1 = dp[:, 1] - dp[:, 0]
     s2 = 0.5 * (dp[:, 2] - dp[:, 0])
     acc = 16 * EPS * (np.abs(dp[:, 0]) + np.abs(dp[:, 2]))
-    return s1, s2, acc
+    bad = []
+    if t.tolist() != [0.0, 1.0, 2.0]:
+        bad.append("modifies-the-callers-array")
+    forms = [("integer-array", np.array([0, 1, 2]), dp), ("row-array", np.array([[0.0, 1.0, 2.0]]), dp)]
+    for j, scalars in ((1, (1, 1.0, np.float64(1.0), np.array(1.0), np.int64(1))), (2, (2, np.float64(2.0)))):
+        forms += [(f"scalar-{type(x).__name__}", x, dp[:, j]) for x in scalars]
+    for name, arg, want in forms:
+        try:
+            got = np.asarray(proc.deterministic_path(arg), dtype=float)
+            if got.size != want.size or not np.array_equal(got.reshape(want.shape), want, equal_nan=True):
+                bad.append(name)
+        except Exception:  # noqa
+            bad.append(name + "-raises")
+    # the array returned is the caller's: writing into it must not move the process
+    try:
+        if isinstance(raw, np.ndarray) and raw.flags.writeable:
+            raw += 1.0
+            again = np.asarray(proc.deterministic_path(t), dtype=float).reshape(dim, 3)
+            if not np.array_equal(again, dp, equal_nan=True):
+                bad.append("returns-a-reference-to-its-state")
+    except Exception:  # noqa
+        pass
+    return s1, s2, acc, bad
 
 
 def _disturbing_chain(fv, exp, products):
@@ -805,18 +1144,19 @@ def _disturbing_chain(fv, exp, products):
     return other
 
 
-def _history_1d(sh, label, tail, vtail, model, proc, exp, fv, pd0, sig0, scale, var_want, fp0, fp_points):
+def _history_1d(sh, label, tail, vtail, model, proc, exp, fv, pd0, sig0, scale, var_want, fp0, fp_points, never_jumps=False):
     """the HISTORY menu on one MarkovChainProcess; after every operation: process_drift(), equivalent_diffusion_coefficient,
     the slope of deterministic_path, the caller's model, and - through pre_computation + simulate_one_path under the scripted
     random source - the coefficient that really multiplies the Brownian variates."""
     import copy
 
-    from mc.c04_util import ProtocolError, Rng, simulated_brownian_scale
+    from mc.c04_util import JUMPS_PER_INTERVAL as JUMPS, ProtocolError, Rng, simulated_brownian_scale
 
     products = _products()
     rng = Rng()
     current = ("vanilla-1", None)
     flagged_modes = set()
+    nojump_done = set()
     with rng.installed():
         for name, pk, eps, pre in HISTORY:
             targets = [proc]
@@ -825,10 +1165,10 @@ def _history_1d(sh, label, tail, vtail, model, proc, exp, fv, pd0, sig0, scale, 
                     proc.reset_one_simulation_cost()
                 elif pre == "other-object":
                     _disturbing_chain(fv, exp, products)
-                elif pre == "deepcopy":
-                    targets = [copy.deepcopy(proc), proc]
+                elif pre in ("deepcopy", "dill"):
+                    targets = [_copy_route(proc, pre), proc]
                 if pk is not None:
-                    targets[0].initialisation(products[pk], max_step_epsilon=eps)
+                    _initialise(targets[0], products[pk], eps)
                     current = (pk, eps)
                 mode = _mode(*current)
                 sh.cls(f"history:{name}")
@@ -846,8 +1186,12 @@ def _history_1d(sh, label, tail, vtail, model, proc, exp, fv, pd0, sig0, scale, 
                         sh.violation(f"C04:history:equivalent_diffusion_coefficient:changes-after-{name}:{vtail}",
                                      f"{label}: equivalent_diffusion_coefficient was {sig0!r}, is {sig!r} after {name}{who}", None)
                         return
-                    s1, s2, acc = _slope(target, 1)
-                    sh.count("evaluations")
+                    s1, s2, acc, bad_forms = _slope(target, 1)
+                    sh.count("evaluations", 2)
+                    if bad_forms:
+                        sh.violation(f"C04:forms:Process.deterministic_path:{bad_forms[0]}:{tail}",
+                                     f"{label}: after {name}{who}: {bad_forms}", None)
+                        return
                     if not (abs(s1[0] - pd) <= acc[0] + 1e-15 and abs(s2[0] - pd) <= acc[0] + 1e-15):
                         sh.violation(f"C04:mean:Process.deterministic_path:slope-differs-from-process_drift:{tail}",
                                      f"{label}: after {name}{who} deterministic_path grows by {s1[0]!r} over [0,1] and {s2[0]!r} per unit "
@@ -861,29 +1205,37 @@ def _history_1d(sh, label, tail, vtail, model, proc, exp, fv, pd0, sig0, scale, 
                         return
                     if idx > 0:
                         continue  # the original of a deep copy keeps its simulator: already simulated
-                    res = simulated_brownian_scale(target, products[current[0]], 1, rng)
-                    if "unrecognised" in res:
-                        sh.count("simulated-variance-not-observable")
-                        sh.cap("C04: the Brownian scale of a simulator was not observable (protocol of the random draws not recognised)")
-                        sh.note(f"C04 history {name}: {res['unrecognised']}")
-                        continue
-                    sh.cls(f"simulator:chain:{mode}")
-                    sh.count("evaluations")
-                    sh.count("simulated_steps", res["columns"])
-                    d2 = float(res["D"][0, 0]) ** 2
-                    ok = res["residual"] <= 1e-9 * max(res["scale"], 1e-300)
-                    if ok:
-                        ok = core.close(d2, sig0 ** 2, rtol=1e-9, atol=1e-30)
-                        if ok and var_want is not None:
-                            ok = core.close(d2, var_want, rtol=1e-7, atol=1e-30)
-                    if not ok and mode not in flagged_modes:
-                        flagged_modes.add(mode)
-                        sh.violation(
-                            f"C04:simulated-variance:chain:{mode}:brownian-scale-differs-from-equivalent-diffusion-coefficient:{vtail}",
-                            f"{label}: after {name} ({pk}, max_step_epsilon={eps}) the simulated diffusion increments are "
-                            f"{float(res['D'][0, 0])!r} x sqrt(dt) x normal (fit residual {res['residual']:.3g} over {res['columns']} "
-                            f"steps); equivalent_diffusion_coefficient = {sig0!r}, sigma^2 + variance of the central-cell jumps = "
-                            f"{var_want!r}", {"simulated_coefficient": float(res["D"][0, 0]), "sigma_eq": sig0, "mode": mode})
+                    # with 2 jumps per interval, then paths without any jump (the simulators' fallback branches)
+                    # (the paths without jumps once per simulator class)
+                    for njumps in ((0,) if never_jumps else (JUMPS,) if mode in nojump_done else (JUMPS, 0)):
+                        nojump_done.add(mode)
+                        rng.jumps = njumps
+                        res = simulated_brownian_scale(target, products[current[0]], 1, rng)
+                        rng.jumps = JUMPS
+                        smode = mode + ("" if njumps else ":no-jump-paths")
+                        if "unrecognised" in res:
+                            sh.count("simulated-variance-not-observable")
+                            sh.cap("C04: the Brownian scale of a simulator was not observable (protocol of the random draws not recognised)")
+                            sh.note(f"C04 history {name}: {res['unrecognised']}")
+                            continue
+                        sh.cls(f"simulator:chain:{smode}")
+                        sh.count("evaluations")
+                        sh.count("simulated_steps", res["columns"])
+                        d2 = float(res["D"][0, 0]) ** 2
+                        ok = res["residual"] <= 1e-9 * max(res["scale"], 1e-300)
+                        if ok:
+                            ok = core.close(d2, sig0 ** 2, rtol=1e-9, atol=1e-30)
+                            if ok and var_want is not None:
+                                ok = core.close(d2, var_want, rtol=1e-7, atol=1e-30)
+                        if not ok and smode not in flagged_modes:
+                            flagged_modes.add(smode)
+                            sh.violation(
+                                f"C04:simulated-variance:chain:{smode}:brownian-scale-differs-from-equivalent-diffusion-coefficient:{vtail}",
+                                f"{label}: after {name} ({pk}, max_step_epsilon={eps}; {njumps} jumps per interval) the simulated "
+                                f"diffusion increments are {float(res['D'][0, 0])!r} x sqrt(dt) x normal (fit residual "
+                                f"{res['residual']:.3g} over {res['columns']} steps); equivalent_diffusion_coefficient = {sig0!r}, "
+                                f"sigma^2 + variance of the central-cell jumps = {var_want!r}",
+                                {"simulated_coefficient": float(res["D"][0, 0]), "sigma_eq": sig0, "mode": smode})
             except ProtocolError as e:
                 sh.count("history-not-scriptable")
                 sh.cap("C04: a history was cut short (a random draw the script does not foresee)")
@@ -895,9 +1247,39 @@ def _history_1d(sh, label, tail, vtail, model, proc, exp, fv, pd0, sig0, scale, 
                 return
 
 
-def _next_level_1d(sh, label, tail, vtail, model, grid, method, a, sigma, nu, rep, fv, drift, jump_mean, jm_err, lo, hi, sig0):
+def _alias_1d(sh, label, tail, vtail, model, proc, pd0, sig0, scale, truncations):
+    """the callee keeps no reference to the caller's model: after the caller re-declared, re-parametrised and truncated ITS
+    object (_disturb_model), a new initialisation of the chain built before gives the drift and the coefficient of before"""
+    try:
+        _disturb_model(model, truncations)
+        proc.initialisation(_product())
+        pd = _real(proc.process_drift())
+        sig = _real(proc.equivalent_diffusion_coefficient)
+    except Exception as e:  # noqa
+        sh.violation(f"C04:arguments:MarkovChainProcess:raises-{type(e).__name__}:after-the-caller-disturbed-its-model:{tail}",
+                     f"{label}: {e!r}", None)
+        return
+    sh.cls("history:caller-disturbs-its-model-then-init")
+    sh.count("evaluations", 2)
+    if not core.close(pd, pd0, rtol=1e-12, atol=1e-15, scale=scale):
+        sh.violation(f"C04:arguments:MarkovChainProcess.process_drift:follows-the-callers-model-object:{tail}",
+                     f"{label}: process_drift() was {pd0!r}; after the caller re-declared / truncated its own model object and the "
+                     f"chain was initialised again it is {pd!r}", None)
+    if not core.close(sig, sig0, rtol=1e-12, atol=1e-300):
+        sh.violation(f"C04:arguments:equivalent_diffusion_coefficient:follows-the-callers-model-object:{vtail}",
+                     f"{label}: equivalent_diffusion_coefficient was {sig0!r}, is {sig!r} after the caller changed its model object", None)
+
+
+def _next_level_1d(sh, label, tail, vtail, model, grid, method, a, sigma, nu, rep, fv, drift, jump_mean, jm_err, lo, hi, sig0,
+                   depth=1):
     """the route the multilevel engine takes to a refinement level: ONE grid object used by a chain, refined in place by
-    CouplingMarkovChain.next_level, used by the next chain.  Mean identity (cell masses) and added variance of that chain."""
+    CouplingMarkovChain.next_level, used by the next chain.  Mean identity (cell masses) and added variance of that chain.
+    Levels beyond the first are reached as Engine.price reaches them: copy.deepcopy of the coupling of the level before, then
+    next_level WITH path managers - the deterministic path of the new manager is [fine, coarse]: the fine one grows by the
+    drift of the new chain, the coarse one by the drift of the chain of the level before; the coupling that was copied is
+    left as it was."""
+    import copy
+
     from rpylib.distribution.sampling import SamplingMethod
     from rpylib.process.coupling.couplingmarkovchain import CouplingMarkovChain
 
@@ -905,68 +1287,106 @@ def _next_level_1d(sh, label, tail, vtail, model, grid, method, a, sigma, nu, re
     try:
         cp = CouplingMarkovChain(model=model, method=SamplingMethod[method], grid=grid)
         cp.initialisation(product)
-        cp.next_level(mc_paths=0, path_managers=None, product=product)
-        fine, g = cp.fine_process, cp.grid
-        pd = _real(fine.process_drift())
-        sig_eq = _real(fine.equivalent_diffusion_coefficient)
-        axis = [float(x) for x in g.axes[0]]
-        o = int(getattr(g.origin_coordinate, "value", g.origin_coordinate))
+        pd_prev = _real(cp.fine_process.process_drift())
     except Exception as e:  # noqa
         sh.violation(f"C04:mean:CouplingMarkovChain.next_level:raises-{type(e).__name__}:{tail}", f"{label}: {e!r}", None)
         return
-    if not _well_formed(axis, o) or (axis[0], axis[-1]) != (lo, hi):
-        sh.count("outside-alphabet:next-level-grid")
-        return
-    sh.cls("route:coupling-next-level")
-    # the Brownian scales the coupling simulators apply to the fine and to the coarse path: those of the chain of this level
-    # and of the chain of the level before (the chain of this case, built on the same grid before its refinement)
-    for attr, ref, what in (("equivalent_diffusion_coefficient_fine", sig_eq, "the new fine chain"),
-                            ("equivalent_diffusion_coefficient_coarse", sig0, "the chain of the level before")):
-        val = getattr(cp, attr, None)
-        if val is None:
-            sh.count("coupling-coefficient-not-observable")
-            continue
-        sh.count("evaluations")
-        if not core.close(_real(val), ref, rtol=1e-12, atol=1e-300):
-            sh.violation(f"C04:variance:CouplingMarkovChain.{attr}:differs-from-the-chain-of-its-level:{vtail}",
-                         f"{label}: after next_level {attr} = {_real(val)!r}, equivalent_diffusion_coefficient of {what} = {ref!r}",
-                         None)
-    cells, central = O.ref_cells(axis, o, middle=g.middle)
-    s1 = s_abs = 0.0
-    for x, cell in zip(axis, cells):
-        if cell is not None:
-            m = max(_real(fine.model.mass(float(cell[0]), float(cell[1]))), 0.0)
-            s1 += x * m
-            s_abs += abs(x) * m
-    rtol = 1e-9 if fv else 1e-8
-    want = drift + a + jump_mean
-    scale = max(abs(pd) if math.isfinite(pd) else 0.0, s_abs, abs(a), abs(drift), abs(jump_mean), 1e-300)
-    if jm_err <= ATOL + rtol * scale:
-        sh.count("evaluations")
-        if not core.close(pd + s1, want, rtol=rtol, atol=ATOL, scale=scale):
-            sh.violation(
-                f"C04:mean:MarkovChainProcess.process_drift:mean-differs-from-truncated-process:{tail}:after-next-level",
-                f"{label}: fine process of CouplingMarkovChain after next_level ({len(axis)} points): process_drift {pd!r} + "
-                f"sum x_k mass(cell_k) = {pd + s1!r}, expected {want!r}", {"process_drift": pd, "expected": want})
-    else:
-        sh.count("oracle_inconclusive")
-    central = (float(central[0]), float(central[1]))
-    if fv:
-        sh.count("evaluations")
-        if not core.close(sig_eq ** 2, sigma ** 2, rtol=1e-12, atol=1e-300):
-            sh.violation(f"C04:variance:equivalent_diffusion_coefficient:variance-added-for-a-finite-variation-model:{vtail}:after-next-level",
-                         f"{label}: after next_level equivalent_diffusion_coefficient^2 = {sig_eq ** 2!r}, sigma^2 = {sigma ** 2!r}", None)
-        return
-    q_c, e_c = _int(nu, max(central[0], -1.0), min(central[1], 1.0), 2)
-    if e_c <= 1e-8 * abs(q_c) + 1e-300:
-        sh.count("evaluations")
-        if not core.close(sig_eq ** 2 - sigma ** 2, q_c, rtol=1e-8, atol=1e-12 * sigma ** 2, scale=max(abs(q_c), sigma ** 2 * 1e-4)):
-            sh.violation(
-                f"C04:variance:equivalent_diffusion_coefficient:not-the-variance-of-the-central-cell-jumps:{vtail}:after-next-level",
-                f"{label}: after next_level equivalent_diffusion_coefficient^2 - sigma^2 = {sig_eq ** 2 - sigma ** 2!r}, int over the "
-                f"central cell {central} of x^2 nu = {q_c!r}", None)
-    else:
-        sh.count("oracle_inconclusive")
+    sig_prev = sig0
+    for level in range(1, depth + 1):
+        stage = ":after-next-level" + (":deep" if level > 1 else "")
+        engine = level > 1
+        try:
+            pms = None
+            if engine:
+                from rpylib.montecarlo.path import MLMCPath
+
+                before = cp
+                n_before = len(before.grid.axes[0])
+                cp = copy.deepcopy(before)
+                pms = [MLMCPath(cp.fine_process.deterministic_path, False)]
+            cp.next_level(mc_paths=0, path_managers=pms, product=product)
+            fine, g = cp.fine_process, cp.grid
+            pd = _real(fine.process_drift())
+            sig_eq = _real(fine.equivalent_diffusion_coefficient)
+            axis = [float(x) for x in g.axes[0]]
+            o = int(getattr(g.origin_coordinate, "value", g.origin_coordinate))
+            if engine:
+                dp = np.asarray(pms[-1].deterministic_path(np.array([0.0, 1.0, 2.0])), dtype=float).reshape(2, 3)
+                left_alone = (len(before.grid.axes[0]) == n_before and _real(before.fine_process.process_drift()) == pd_prev)
+        except Exception as e:  # noqa
+            sh.violation(f"C04:mean:CouplingMarkovChain.next_level:raises-{type(e).__name__}:{tail}{stage[17:]}", f"{label}: {e!r}", None)
+            return
+        if not _well_formed(axis, o) or (axis[0], axis[-1]) != (lo, hi):
+            sh.count("outside-alphabet:next-level-grid")
+            return
+        sh.cls("route:coupling-next-level" + (":engine-deepcopy-with-path-managers" if engine else ""))
+        if engine:
+            sh.count("evaluations", 3)
+            if not left_alone:
+                sh.violation(f"C04:copies:CouplingMarkovChain:next_level-of-a-deepcopy-changes-the-original:{tail}",
+                             f"{label}: level {level}: the coupling that was deep-copied had {n_before} points and drift {pd_prev!r}; "
+                             f"it has {len(before.grid.axes[0])} points and drift {_real(before.fine_process.process_drift())!r} "
+                             f"after next_level of its copy", None)
+            acc = 16 * EPS * (np.abs(dp[:, 0]) + np.abs(dp[:, 2])) + 1e-15
+            for row, ref, what in ((0, pd, "fine"), (1, pd_prev, "coarse")):
+                s1, s2 = dp[row, 1] - dp[row, 0], 0.5 * (dp[row, 2] - dp[row, 0])
+                if not (abs(s1 - ref) <= acc[row] and abs(s2 - ref) <= acc[row]):
+                    sh.violation(
+                        f"C04:mean:CouplingMarkovChain.next_level:{what}-deterministic-path-slope-differs-from-the-drift-of-its-level:{tail}",
+                        f"{label}: level {level}: the {what} deterministic path of the new path manager grows by {s1!r} over [0,1] "
+                        f"and {s2!r} per unit time over [0,2]; process_drift() of the chain of that level = {ref!r}", None)
+        # the Brownian scales the coupling simulators apply to the fine and to the coarse path: those of the chain of this
+        # level and of the chain of the level before (level 1: the chain of this case, built on the same grid before)
+        for attr, ref, what in (("equivalent_diffusion_coefficient_fine", sig_eq, "the new fine chain"),
+                                ("equivalent_diffusion_coefficient_coarse", sig_prev, "the chain of the level before")):
+            val = getattr(cp, attr, None)
+            if val is None:
+                sh.count("coupling-coefficient-not-observable")
+                continue
+            sh.count("evaluations")
+            if not core.close(_real(val), ref, rtol=1e-12, atol=1e-300):
+                sh.violation(f"C04:variance:CouplingMarkovChain.{attr}:differs-from-the-chain-of-its-level:{vtail}{stage[17:]}",
+                             f"{label}: after next_level (level {level}) {attr} = {_real(val)!r}, "
+                             f"equivalent_diffusion_coefficient of {what} = {ref!r}", None)
+        cells, central = O.ref_cells(axis, o, middle=g.middle)
+        s1 = s_abs = 0.0
+        for x, cell in zip(axis, cells):
+            if cell is not None:
+                m = max(_real(fine.model.mass(float(cell[0]), float(cell[1]))), 0.0)
+                s1 += x * m
+                s_abs += abs(x) * m
+        rtol = 1e-9 if fv else 1e-8
+        want = drift + a + jump_mean
+        scale = max(abs(pd) if math.isfinite(pd) else 0.0, s_abs, abs(a), abs(drift), abs(jump_mean), 1e-300)
+        if jm_err <= ATOL + rtol * scale:
+            sh.count("evaluations")
+            if not core.close(pd + s1, want, rtol=rtol, atol=ATOL, scale=scale):
+                sh.violation(
+                    f"C04:mean:MarkovChainProcess.process_drift:mean-differs-from-truncated-process:{tail}{stage}",
+                    f"{label}: fine process of CouplingMarkovChain after next_level (level {level}, {len(axis)} points): "
+                    f"process_drift {pd!r} + sum x_k mass(cell_k) = {pd + s1!r}, expected {want!r}",
+                    {"process_drift": pd, "expected": want})
+        else:
+            sh.count("oracle_inconclusive")
+        central = (float(central[0]), float(central[1]))
+        if fv:
+            sh.count("evaluations")
+            if not core.close(sig_eq ** 2, sigma ** 2, rtol=1e-12, atol=1e-300):
+                sh.violation(f"C04:variance:equivalent_diffusion_coefficient:variance-added-for-a-finite-variation-model:{vtail}{stage}",
+                             f"{label}: after next_level (level {level}) equivalent_diffusion_coefficient^2 = {sig_eq ** 2!r}, "
+                             f"sigma^2 = {sigma ** 2!r}", None)
+        else:
+            q_c, e_c = _int(nu, max(central[0], -1.0), min(central[1], 1.0), 2)
+            if e_c <= 1e-8 * abs(q_c) + 1e-300:
+                sh.count("evaluations")
+                if not core.close(sig_eq ** 2 - sigma ** 2, q_c, rtol=1e-8, atol=1e-12 * sigma ** 2, scale=max(abs(q_c), sigma ** 2 * 1e-4)):
+                    sh.violation(
+                        f"C04:variance:equivalent_diffusion_coefficient:not-the-variance-of-the-central-cell-jumps:{vtail}{stage}",
+                        f"{label}: after next_level (level {level}) equivalent_diffusion_coefficient^2 - sigma^2 = "
+                        f"{sig_eq ** 2 - sigma ** 2!r}, int over the central cell {central} of x^2 nu = {q_c!r}", None)
+            else:
+                sh.count("oracle_inconclusive")
+        pd_prev, sig_prev = pd, sig_eq
 
 
 # ----------------------------------------------------------------------------------------------------------------------
@@ -1091,17 +1511,18 @@ def _history_copula(sh, label, spec, gspec, model, margins, grid, proc, dim, pd0
     5 - 30 s, only the simulation after the first initialisation)."""
     import copy
 
-    from mc.c04_util import ProtocolError, Rng, simulated_brownian_scale
+    from mc.c04_util import JUMPS_PER_INTERVAL as JUMPS, ProtocolError, Rng, simulated_brownian_scale
     from rpylib.distribution.sampling import SamplingMethod
     from rpylib.process.markovchain.markovchainlevycopula import MarkovChainLevyCopula
 
     names = spec["margins"]
-    pair = ("exp-" if spec.get("exp") else "") + "+".join(names)
+    pair = ("exp-" if spec.get("exp") else "") + "+".join(names) + (f":copied={spec['copied']}" if spec.get("copied") else "")
     gc = _gclass(gspec)
     products = _products()
     rng = Rng()
     current = ("vanilla-1", None)
     flagged_modes = set()
+    nojump_done = set()
     vscale = max(float(np.max(np.abs(var0))), 1e-300)
     menu = HISTORY[:1] if real_pool else HISTORY
     with _pool(False), rng.installed():
@@ -1116,14 +1537,14 @@ def _history_copula(sh, label, spec, gspec, model, margins, grid, proc, dim, pd0
                     twin = MarkovChainLevyCopula(levy_copula_model=model, grid=grid, method=SamplingMethod.BINARYSEARCHTREEADAPTED)
                     twin.initialisation(products["cds-1"], max_step_epsilon=0.2)
                     targets = [proc, twin]
-                    rev = A.make_copula_model(dict(spec, margins=list(reversed(names))))
+                    rev = _make_copula_model({k: v for k, v in dict(spec, margins=list(reversed(names))).items() if k != 'copied'})
                     other = MarkovChainLevyCopula(levy_copula_model=rev, method=SamplingMethod.INVERSION,
                                                   grid=A.make_grid({"kind": "fixed", "h": 0.07, "n": 3}, rev, dim))
                     other.initialisation(products["asian-2"])
-                elif pre == "deepcopy":
-                    targets = [copy.deepcopy(proc), proc]
+                elif pre in ("deepcopy", "dill"):
+                    targets = [_copy_route(proc, pre), proc]
                 if pk is not None:
-                    targets[0].initialisation(products[pk], max_step_epsilon=eps)
+                    _initialise(targets[0], products[pk], eps)
                     current = (pk, eps)
                 mode = _mode(*current)
                 sh.cls(f"copula-history:{name}")
@@ -1145,8 +1566,12 @@ def _history_copula(sh, label, spec, gspec, model, margins, grid, proc, dim, pd0
                         sh.violation(f"C04:history:MCLevyCopulaSimulation.diffusion_matrix:changes-after-{name}:{pair}",
                                      f"{label}: D D^T was {var0.tolist()}, is {var.tolist()} after {name}{who}", None)
                         return
-                    s1, s2, acc = _slope(target, dim)
-                    sh.count("evaluations")
+                    s1, s2, acc, bad_forms = _slope(target, dim)
+                    sh.count("evaluations", 2)
+                    if bad_forms:
+                        sh.violation(f"C04:forms:Process.deterministic_path:{bad_forms[0]}:copula:{pair}",
+                                     f"{label}: after {name}{who}: {bad_forms}", None)
+                        return
                     pdr = np.array([_real(x) for x in pd])
                     if not (np.all(np.abs(s1 - pdr) <= acc + 1e-15) and np.all(np.abs(s2 - pdr) <= acc + 1e-15)):
                         sh.violation(f"C04:mean:Process.deterministic_path:slope-differs-from-process_drift:copula:{pair}",
@@ -1161,25 +1586,35 @@ def _history_copula(sh, label, spec, gspec, model, margins, grid, proc, dim, pd0
                         return
                     if idx > 0:
                         continue
-                    res = simulated_brownian_scale(target, products[current[0]], dim, rng)
-                    if "unrecognised" in res:
-                        sh.count("simulated-variance-not-observable")
-                        sh.cap("C04: the Brownian scale of a simulator was not observable (protocol of the random draws not recognised)")
-                        sh.note(f"C04 copula history {name}: {res['unrecognised']}")
+                    if dim > 3:
+                        # the identifiable normals (a golden-ratio sequence) do not span R^4: the matrix is not recoverable
+                        sh.count("simulated-variance-not-observed-beyond-dimension-3")
                         continue
-                    sh.cls(f"simulator:copula-chain:{mode}")
-                    sh.count("evaluations")
-                    sh.count("simulated_steps", res["columns"])
-                    svar = res["D"] @ res["D"].T
-                    ok = res["residual"] <= 1e-9 * max(res["scale"], 1e-300)
-                    ok = ok and np.allclose(svar, var0, rtol=0.0, atol=1e-8 * vscale + 1e-30)
-                    if not ok and mode not in flagged_modes:
-                        flagged_modes.add(mode)
-                        sh.violation(
-                            f"C04:simulated-variance:copula-chain:{mode}:brownian-covariance-differs-from-diffusion-matrix:{pair}",
-                            f"{label}: after {name} ({pk}, max_step_epsilon={eps}) the simulated diffusion increments are D z sqrt(dt) "
-                            f"with D D^T = {svar.tolist()} (fit residual {res['residual']:.3g} over {res['columns']} steps); the "
-                            f"diffusion matrix gives {var0.tolist()}", {"simulated": svar.tolist(), "expected": var0.tolist()})
+                    for njumps in ((JUMPS,) if mode in nojump_done else (JUMPS, 0)):
+                        nojump_done.add(mode)
+                        rng.jumps = njumps
+                        res = simulated_brownian_scale(target, products[current[0]], dim, rng)
+                        rng.jumps = JUMPS
+                        smode = mode + ("" if njumps else ":no-jump-paths")
+                        if "unrecognised" in res:
+                            sh.count("simulated-variance-not-observable")
+                            sh.cap("C04: the Brownian scale of a simulator was not observable (protocol of the random draws not recognised)")
+                            sh.note(f"C04 copula history {name}: {res['unrecognised']}")
+                            continue
+                        sh.cls(f"simulator:copula-chain:{smode}")
+                        sh.count("evaluations")
+                        sh.count("simulated_steps", res["columns"])
+                        svar = res["D"] @ res["D"].T
+                        ok = res["residual"] <= 1e-9 * max(res["scale"], 1e-300)
+                        ok = ok and np.allclose(svar, var0, rtol=0.0, atol=1e-8 * vscale + 1e-30)
+                        if not ok and smode not in flagged_modes:
+                            flagged_modes.add(smode)
+                            sh.violation(
+                                f"C04:simulated-variance:copula-chain:{smode}:brownian-covariance-differs-from-diffusion-matrix:{pair}",
+                                f"{label}: after {name} ({pk}, max_step_epsilon={eps}; {njumps} jumps per interval) the simulated "
+                                f"diffusion increments are D z sqrt(dt) with D D^T = {svar.tolist()} (fit residual "
+                                f"{res['residual']:.3g} over {res['columns']} steps); the diffusion matrix gives {var0.tolist()}",
+                                {"simulated": svar.tolist(), "expected": var0.tolist()})
             except ProtocolError as e:
                 sh.count("history-not-scriptable")
                 sh.cap("C04: a history was cut short (a random draw the script does not foresee)")
@@ -1199,9 +1634,9 @@ def _copula(sh, case):
     names = spec["margins"]
     exp = bool(spec.get("exp"))
     label = (f"{'exp-' if exp else ''}{'+'.join(names)} {_cop_label(spec['copula'])} declared {rep_req or 'as constructed'} "
-             f"on {gspec}")
+             f"on {gspec}" + (f" [{spec['copied']} of the model, original disturbed afterwards]" if spec.get("copied") else ""))
     gc = _gclass(gspec)
-    model = A.make_copula_model(spec)
+    model = _make_copula_model(spec)
     margins = list(model.models)
     dim = len(margins)
     sh.cls(f"copula-dimension:{dim}")
@@ -1212,12 +1647,19 @@ def _copula(sh, case):
         if rep_k == "ZERO" and not fvk:
             applied.append(None)  # not admissible for that margin: left as constructed
             continue
-        mspec = dict(A.MARGINS[names[k]], exp=exp)
+        mspec = dict(MARGINS[names[k]], exp=exp)
         if not _set_rep(sh, mk.levy_triplet, rep_k, _mclass(mspec), label + f" margin {k}"):
             return
         applied.append(rep_k)
-    fv_all = bool(model.jump_of_finite_variation())
+    # finite variation of the copula model = of every margin, by the margins' OWN measures (at a Blumenthal-Getoor index of
+    # exactly 1 the index alone does not tell)
+    fv_margins = [bool(mk.levy_triplet.nu.jump_of_finite_variation()) for mk in margins]
+    fv_all = all(fv_margins)
     sh.cls("copula:" + ("finite" if fv_all else "infinite") + "-variation")
+    if bool(model.jump_of_finite_variation()) != fv_all:
+        sh.cls("copula:variation-flag-of-the-model-differs-from-that-of-its-margins")
+    if spec.get("copied"):
+        sh.cls(f"copula-model-copied:{spec['copied']}")
     sh.cls("copula-grid:" + gc)
     sh.cls("copula-process-representation:" + ("log" if exp else "identity"))
     try:
@@ -1297,7 +1739,7 @@ def _copula(sh, case):
             if not core.close(got, want, rtol=rtol, atol=ATOL, scale=scale):
                 sh.violation(
                     f"C04:copula-mean:MarkovChainLevyCopula.process_drift:margin-mean-differs-from-truncated-margin:{mix}:"
-                    f"{_mclass(dict(A.MARGINS[names[k]], exp=exp))}:{rep}{stage}",
+                    f"{_mclass(dict(MARGINS[names[k]], exp=exp))}:{rep}{stage}",
                     f"{label}{stage}: margin {k} ({names[k]}, {rep}): _process_drift[{k}] {pdk!r} + sum x_i nu_k(cell_i) = {got!r}; "
                     f"margin.drift() + a + int_T x (1 - c_{rep}) nu_k = {want!r} (bias {got - want:.6g} per unit time)",
                     {"margin": k, "process_drift": pdk, "chain_mean": got, "expected": want, "a": a, "model_drift": drift,
@@ -1322,7 +1764,7 @@ def _copula(sh, case):
     # ---- diffusion matrix
     dm = getattr(getattr(proc, "_path_simulation", None), "diffusion_matrix", None)
     sig2 = np.diag([_real(m.levy_triplet.sigma) ** 2 for m in margins])
-    pair = "+".join(names)
+    pair = "+".join(names) + (f":copied={spec['copied']}" if spec.get("copied") else "")
     if dm is None:
         sh.count("diffusion-matrix-not-observable")
     else:
@@ -1346,6 +1788,21 @@ def _copula(sh, case):
                              f"{label}: D D^T = {var.tolist()}; diag(sigma^2) + (co)variances returned for the small jumps = "
                              f"{want_var.tolist()} (scripted answers of the pool: {handed.tolist()})", None)
             sh.cls("copula-diffusion:scripted-small-jump-covariance")
+        elif not real_pool:
+            # the small-jump covariance was not even asked for although a margin has jumps of infinite variation: nothing can
+            # have been added for it
+            sh.count("evaluations")
+            nothing = [k for k in range(dim) if not fv_margins[k] and not var[k, k] > sig2[k, k] * (1 + 1e-12)]
+            if nothing:
+                sh.violation(
+                    f"C04:copula-variance:MCLevyCopulaSimulation.diffusion_matrix:nothing-added-for-an-infinite-variation-margin:{pair}",
+                    f"{label}: margins {nothing} have jumps of infinite variation (their own measure says so, their central cell is "
+                    f"removed and their drift uses the cut-off 1), but (D D^T)[k,k] = {[float(var[k, k]) for k in nothing]} = "
+                    f"sigma_k^2: no variance of the jumps inside the central cell was added (LevyCopulaModel."
+                    f"jump_of_finite_variation() = {bool(model.jump_of_finite_variation())})",
+                    {"variance": var.tolist(), "sigma2": sig2.tolist(), "finite_variation_per_margin": fv_margins})
+            else:
+                sh.count("copula-variance-not-judged")
         elif real_pool and dim == 2:
             h2 = 0.5 * float(grid.h)
             nus = [m.levy_triplet.nu for m in margins]
@@ -1398,6 +1855,31 @@ def _copula(sh, case):
                 judge(pd2, axes2, origin2, ":after-next-level")
             else:
                 sh.count("outside-alphabet:next-level-grid")
+    elif dm is not None and not real_pool:
+        # ---- last (the grid object not refined): the caller disturbs ITS margins; the chain built before answers as before
+        try:
+            for mk, ax in zip(margins, axes):
+                _disturb_model(mk, (0.5 * ax[0], 0.5 * ax[-1]))
+            with _pool(False):
+                proc.initialisation(_product())
+            pd3 = np.asarray(proc.process_drift(), dtype=complex).reshape(-1)
+            dm3 = np.asarray(proc._path_simulation.diffusion_matrix, dtype=complex)
+            var3 = (dm3 @ dm3.T).real
+        except Exception as e:  # noqa
+            sh.violation(f"C04:arguments:MarkovChainLevyCopula:raises-{type(e).__name__}:after-the-caller-disturbed-its-model:{pair}:{gc}",
+                         f"{label}: {e!r}", None)
+        else:
+            sh.cls("copula-history:caller-disturbs-its-model-then-init")
+            sh.count("evaluations", 2)
+            bad = [k for k in range(dim) if pd3.size != dim or not core.close(_real(pd3[k]), _real(pd[k]), rtol=1e-12, atol=1e-15,
+                                                                               scale=scales[k])]
+            if bad:
+                sh.violation(f"C04:arguments:MarkovChainLevyCopula.process_drift:follows-the-callers-model-object:{pair}:{gc}",
+                             f"{label}: process_drift() was {[_real(x) for x in pd]}; after the caller re-declared / truncated its own "
+                             f"margin objects and the chain was initialised again it is {[_real(x) for x in pd3]}", None)
+            if not np.allclose(var3, var, rtol=0.0, atol=1e-10 * max(float(np.max(np.abs(var))), 1e-300) + 1e-300):
+                sh.violation(f"C04:arguments:MCLevyCopulaSimulation.diffusion_matrix:follows-the-callers-model-object:{pair}",
+                             f"{label}: D D^T was {var.tolist()}, is {var3.tolist()} after the caller changed its margin objects", None)
     sh.outcome((obs, gc))
     if gspec["kind"] == "fixed" and gspec.get("n") == 5 and not gspec.get("refine"):
         sh.sample({"sub": "copula", "model": spec, "declared": [r for _, r in after], "grid": gspec,
